@@ -20,7 +20,7 @@ CASES = [
     ('parse.free_start_not_advanced', 'src/parser/stream.rs', 'self.free_start += new_input;', 'self.free_start += new_input.saturating_sub(1);', ['C05'], 'mutant'),
     ('parse_payload.dest_count', 'src/parser/stream.rs', 'res.stream += read;', 'res.stream += payload_len;', ['C02'], 'mutant'),
     ('consume_stream.no_min', 'src/parser/stream.rs', 'self.parsed_start += min(amt, parsed_len);', 'self.parsed_start += amt;', ['C03'], 'mutant'),
-    ('consume_output.keeps_start', 'src/parser/stream.rs', '            self.output.clear();\n            self.output_start = 0;', '            self.output.clear();', ['C04'], 'mutant'),
+    ('consume_output.keeps_start', 'src/parser/stream.rs', '            self.output.clear();\n            self.output_start = 0;', '            self.output.clear();', ['C03'], 'mutant'),
     ('f1.revert_fix', 'src/parser/stream.rs', '            if !s.is_input_stream()\n                || cmp_input_streams(self.request.role, s, self.stream) == Ordering::Less\n            {', '            if cmp_input_streams(self.request.role, s, self.stream) == Ordering::Less {', ['C18'], 'mutant'),
     ('cmp.greater_less_swapped', 'src/parser/stream.rs', '            recv_pos = Ordering::Greater;', '            recv_pos = Ordering::Less;', ['C18'], 'mutant'),
     # ---- request parser
